@@ -394,13 +394,23 @@ class PragmaToken(MarkdownToken):
         """
         return self.__pragma_lines
 
-    def adjust_pragma_line_number(
-        self, initial_line_number: int, new_line_number: int
+    def adjust_pragma_line_numbers_after(
+        self, after_line_number: int, line_number_delta: int
     ) -> None:
-        """Perform an adjustment to the line number of a given pragma."""
-        old_pragma = self.__pragma_lines[initial_line_number]
-        del self.__pragma_lines[initial_line_number]
-        self.__pragma_lines[new_line_number] = old_pragma
+        """
+        Shift every pragma that follows the given line by the given number of lines.
+        The keys are line numbers, negated for pragmas that use the alternate prefix.
+        All entries are moved at once so that no entry can land on another one.
+        """
+        shifted_pragma_lines: Dict[int, str] = {}
+        for pragma_line_number, pragma_line in self.__pragma_lines.items():
+            if abs(pragma_line_number) > after_line_number:
+                pragma_line_number += (
+                    line_number_delta if pragma_line_number > 0 else -line_number_delta
+                )
+            shifted_pragma_lines[pragma_line_number] = pragma_line
+        self.__pragma_lines.clear()
+        self.__pragma_lines.update(shifted_pragma_lines)
         self.__compose_extra_data_field()
 
     def register_for_markdown_transform(
